@@ -140,11 +140,21 @@ func (g *pgen) seq(depth int, want int) {
 		switch {
 		case g.feat.Spans && depth < 3 && g.r.Intn(5) == 0:
 			n := g.spanNode(depth)
+			// finding D1 (open again: the repair a4e4721 was backed out in adc3996): the start
+			// spacing of an inline box is not charged when its own content is split, so in
+			// wrapping modes a span with start spacing holds one unbreakable word
+			single := g.wrap && n.ML+n.BL+n.PL > 0 && !lifted("D1")
+			if single && g.r.Intn(2) == 0 {
+				n.ML, n.BL, n.PL = 0, 0, 0
+				single = false
+			}
 			// finding D15: the start spacing of an inline box is dropped when the box begins with
 			// a collapsible space that is skipped at a line start; no space just inside such an edge
 			g.toks = append(g.toks, tok{k: 'o', node: n, tight: n.ML+n.BL+n.PL > 0 && !lifted("D15")})
 			first := len(g.toks)
 			switch {
+			case single:
+				g.toks = append(g.toks, tok{k: 'w', s: g.wordH(false)})
 			case g.wrap && n.MR+n.BR+n.PR > 0 && !lifted("D9"):
 				// finding D9: the end spacing is charged by re-splitting the last child only, so
 				// a span with end spacing holds nothing but words (one text node)
